@@ -85,6 +85,26 @@ func VerifC16Seq() {
 	if cPath == nil {
 		verifFail("C16/path-of-container-failed " + label)
 	}
+	// (checked first: a failed assertion ends a path, and the per-element checks below meet the recorded stale-key finding)
+	// keys / to_entries enumerate the same indices
+	ks := c16One("keys", c)
+	verifAssert(ks != nil && len(ks.Content) == len(c.Content), "C16/keys-count "+label)
+	if ks != nil && len(ks.Content) == len(c.Content) {
+		for k := range c.Content {
+			verifAssert(verifEqStr(ks.Content[k].Value, verifItoa(int64(k))), "C16/keys-enumerate-positions "+label)
+		}
+	}
+	es := c16One("to_entries", c)
+	verifAssert(es != nil && len(es.Content) == len(c.Content), "C16/entries-count "+label)
+	if es != nil && len(es.Content) == len(c.Content) {
+		for k := range c.Content {
+			e := es.Content[k]
+			verifAssert(e.Kind == MappingNode && len(e.Content) == 4, "C16/entry-shape "+label)
+			if e.Kind == MappingNode && len(e.Content) == 4 {
+				verifAssert(verifEqStr(e.Content[1].Value, verifItoa(int64(k))), "C16/entries-enumerate-positions "+label)
+			}
+		}
+	}
 	for k, el := range c.Content {
 		ks := verifItoa(int64(k))
 		// key
@@ -105,25 +125,6 @@ func VerifC16Seq() {
 			if len(pa.Content) == len(cPath.Content)+1 {
 				verifAssert(verifEqStr(pa.Content[len(pa.Content)-1].Value, ks), "C16/path-last-is-position "+label)
 				verifAssert(c16Follow(c, pa, len(cPath.Content)) == el, "C16/path-leads-to-node "+label)
-			}
-		}
-	}
-	// keys / to_entries enumerate the same indices
-	ks := c16One("keys", c)
-	verifAssert(ks != nil && len(ks.Content) == len(c.Content), "C16/keys-count "+label)
-	if ks != nil && len(ks.Content) == len(c.Content) {
-		for k := range c.Content {
-			verifAssert(verifEqStr(ks.Content[k].Value, verifItoa(int64(k))), "C16/keys-enumerate-positions "+label)
-		}
-	}
-	es := c16One("to_entries", c)
-	verifAssert(es != nil && len(es.Content) == len(c.Content), "C16/entries-count "+label)
-	if es != nil && len(es.Content) == len(c.Content) {
-		for k := range c.Content {
-			e := es.Content[k]
-			verifAssert(e.Kind == MappingNode && len(e.Content) == 4, "C16/entry-shape "+label)
-			if e.Kind == MappingNode && len(e.Content) == 4 {
-				verifAssert(verifEqStr(e.Content[1].Value, verifItoa(int64(k))), "C16/entries-enumerate-positions "+label)
 			}
 		}
 	}
